@@ -189,6 +189,8 @@ var mutantCatalogue = map[string][]mutant{
 		{Name: "pending write deleted outright", File: "risc/app.go", Old: "\t\tctx.PendingWriteRegisters[register]--\n\t\tif ctx.PendingWriteRegisters[register] <= 0 {\n\t\t\tdelete(ctx.PendingWriteRegisters, register)\n\t\t}\n\t}\n}\n\n// IsWriteDataHazard", New: "\t\tdelete(ctx.PendingWriteRegisters, register)\n\t}\n}\n\n// IsWriteDataHazard"},
 	},
 	"C05": {
+		{Name: "L3 dirty flag never raised", File: "proc/mvp8-0/msi.go", Old: "\tm.l3Write[addr] = true\n", New: ""},
+		{Name: "dirty L3 lines dropped, clean ones written back", File: "proc/mvp8-0/msi.go", Old: "if m.l3Write[alignedAddr] {", New: "if !m.l3Write[alignedAddr] {"},
 		{Name: "load miss taken for a hit", File: "proc/mvp6-2/eu.go", Old: "} else if exists {", New: "} else if !exists {"},
 		{Name: "store routed to the cache when the line is ABSENT", File: "proc/mvp6-3/eu.go", Old: "if execution.MemoryChange && u.mmu.doesExecutionMemoryChangesExistsInL3(execution) {", New: "if execution.MemoryChange && !u.mmu.doesExecutionMemoryChangesExistsInL3(execution) {"},
 		{Name: "miss path runs the load on stale bytes", File: "proc/mvp6-2/eu.go", Old: "\t\t\t\tu.memory = m\n", New: "\t\t\t\t_ = m\n"},
